@@ -2,6 +2,7 @@ import Casket.Proofs.Parser
 import Casket.Proofs.ParserTerm
 import Casket.Proofs.ParserTotal
 import Casket.Proofs.ParserMono
+import Casket.Proofs.ParserPos
 import Casket.Proofs.ParserRT
 import Casket.Proofs.ParserSplice
 import Casket.Proofs.ParserCycle
@@ -170,6 +171,56 @@ theorem C10_model_verdict_ok_partial (cfg : Cfg) (fuel : Nat) (fn : String) (inp
     exact ⟨h1, h2⟩
   | panic m => exact absurd hr (C10_parse_no_panic cfg fuel fn input m)
   | timeout => rw [hr] at h; exact h.elim
+
+/-- The error-position clause at full strength: EVERY error `Parse` returns names a non-empty file and a line ≥ 1 —
+for every input, every set of files, every snippet, every environment and every fuel; no hypothesis beyond a
+non-empty file name given to `Parse`.  (Proofs/ParserPos.lean: every token in the list and in a snippet body has a
+line ≥ 1; an error is raised at a cursor ≥ 0 of a non-empty token list.  The list CAN become empty — an import at
+cursor 0 that expands to nothing — but then the only error left, `addresses`' end of input, needs a comma-ended
+address read before, i.e. a cursor ≥ 1.) -/
+theorem C10_error_position (cfg : Cfg) (fuel : Nat) (fn : String) (input : Bytes) (hfn : fn ≠ "")
+    (c f : String) (l : Nat) (h : parse cfg fuel fn input = .err c f l) : f ≠ "" ∧ 1 ≤ l := by
+  have := parse_pos cfg fuel fn input hfn
+  rw [h] at this
+  exact this
+
+/-- non-vacuity (finding F22's input, evaluated): `a,⏎import nothing*` — the import at the end of the input expands to
+nothing, the end-of-input error is raised past the end of the shrunken token list and names the last line, not line 0;
+and `import nothing*` alone, which EMPTIES the token list at cursor 0, is not an error -/
+example :
+    parse { envFuel := 3 } 20 "Casketfile" [0x61, 0x2C, 0x0A, 0x69, 0x6D, 0x70, 0x6F, 0x72, 0x74, 0x20, 0x6E, 0x6F, 0x74, 0x68, 0x69, 0x6E, 0x67, 0x2A]
+      = .err "eof" "Casketfile" 1 ∧
+    parse { envFuel := 3 } 20 "Casketfile" [0x69, 0x6D, 0x70, 0x6F, 0x72, 0x74, 0x20, 0x6E, 0x6F, 0x74, 0x68, 0x69, 0x6E, 0x67, 0x2A] = .ok [] := by
+  decide
+
+/-- … so for ALL inputs, files, environments and fuel the judge's verdict on the model's answer is `ok` unless the
+answer is `timeout` -/
+theorem C10_model_verdict_unless_timeout (cfg : Cfg) (fuel : Nat) (fn : String) (input : Bytes) (hfn : fn ≠ "") :
+    totalVerdictA (answerOf (parse cfg fuel fn input)) = "ok" ∨ parse cfg fuel fn input = .timeout := by
+  cases hr : parse cfg fuel fn input with
+  | ok bs => exact Or.inl rfl
+  | err c f l =>
+    refine Or.inl ?_
+    rw [totalVerdictA_ok_iff]
+    obtain ⟨h1, h2⟩ := C10_error_position cfg fuel fn input hfn c f l hr
+    simp only [answerOf, total, Bool.and_eq_true, bne_iff_ne, ne_eq, decide_eq_true_eq]
+    exact ⟨h1, h2⟩
+  | panic m => exact absurd hr (C10_parse_no_panic cfg fuel fn input m)
+  | timeout => exact Or.inr rfl
+
+/-- The model's answer satisfies the judge `total` WITH imports and snippets: for every input and every finite set of
+files (imports of files, globs, snippets, cycles, snippet definitions) there is a fuel from which on the verdict of
+`ParserSpec.total` — the predicate the driver applies to the answers of the REAL parser — is `ok`: server blocks, or an
+error that names a non-empty file and a line ≥ 1; never a panic, never a timeout.
+PARTIAL only as `C10_parse_total_partial` is: looping environment values (finding F19) are excluded by `HypS`. -/
+theorem C10_model_verdict_ok_total_partial (cfg : Cfg) (fn : String) (input : Bytes) (hfn : fn ≠ "")
+    (hyp : HypS cfg (lex input)) :
+    ∃ f0, ∀ fuel, f0 ≤ fuel → totalVerdictA (answerOf (parse cfg fuel fn input)) = "ok" := by
+  obtain ⟨f0, h0⟩ := C10_parse_total_partial cfg fn input hyp
+  refine ⟨f0, fun fuel hf => ?_⟩
+  rcases C10_model_verdict_unless_timeout cfg fuel fn input hfn with h | h
+  · exact h
+  · rcases (h0 fuel hf).1 with ⟨bs, hb⟩ | ⟨c, f, l, hb⟩ <;> rw [hb] at h <;> cases h
 
 /-! ### structure preservation: the blocks returned are the blocks written -/
 
